@@ -37,7 +37,8 @@ func (f faultSpec) String() string {
 
 // Fault kinds. Packet kinds are addressed by packet index of the attempt.
 var packetKinds = []string{"fin", "rst", "short0", "zerolen", "cut", "badseq", "err", "eof", "cancel-master",
-	"inject-rowsquery", "inject-intvar", "inject-rand", "inject-invalid"}
+	"inject-rowsquery", "inject-intvar", "inject-rand", "inject-invalid",
+	"inject-baddecode-before", "inject-baddecode-after", "inject-baddecode-write", "inject-baddecode-delete"}
 var txKinds = []string{"cancel-handler", "handler-err", "handler-err-cancel"}
 var mapperKinds = []string{"mapper-err", "mapper-count", "mapper-err-cancel", "mapper-count-cancel"}
 
@@ -76,6 +77,8 @@ func causeClass(k string) string {
 		return "gate-reject"
 	case "inject-rowsquery", "inject-intvar", "inject-rand":
 		return "unsupported-event"
+	case "inject-baddecode-before", "inject-baddecode-after", "inject-baddecode-write", "inject-baddecode-delete":
+		return "undecodable-event"
 	case "handler-err", "handler-err-cancel":
 		return "handler"
 	case "mapper-err", "mapper-count", "mapper-err-cancel", "mapper-count-cancel":
@@ -109,6 +112,31 @@ func injected(kind string, l *hist.Layout, pk sim.PlanPkt, r *core.Rng) []byte {
 		return b
 	}
 	return nil
+}
+
+// badDecode builds a table map for run.BadTable and a rows event of it in
+// which one image holds a JSON cell of an unknown value type (the other image,
+// if any, is fine): a well-formed event that cannot be decoded.
+func badDecode(kind string, cfg *ev.Cfg) (tm, rows []byte) {
+	t := run.BadTable
+	tm = cfg.EventNext(1, ev.TableMap, 0, cfg.TableMapBody(t.ID, 1, t.DB, t.Name, []byte{ev.TLong, ev.TJSON}, []uint16{0, 4}, []bool{false, true}, nil), hostileNext)
+	img := func(typ byte) []byte { return []byte{7, 0, 0, 0 /* id */, 2, 0, 0, 0 /* doc length */, typ, 1} }
+	good, bad := img(4), img(13) // literal true / no such type
+	all := []bool{true, true}
+	row := ev.RowImage{BeforeNull: []bool{false, false}, AfterNull: []bool{false, false}}
+	k := ev.KUpdate
+	switch kind {
+	case "inject-baddecode-before":
+		row.Before, row.After = bad, good
+	case "inject-baddecode-after":
+		row.Before, row.After = good, bad
+	case "inject-baddecode-write":
+		k, row.After = ev.KWrite, bad
+	case "inject-baddecode-delete":
+		k, row.Before = ev.KDelete, bad
+	}
+	rows = cfg.EventNext(1, cfg.RowsType(k), 0, cfg.RowsBody(k, t.ID, 1, nil, 2, all, all, []ev.RowImage{row}), hostileNext)
+	return tm, rows
 }
 
 // randMsg draws a printable master error message (may contain UTF-8).
@@ -229,7 +257,11 @@ func runAttempt(c *core.Ctx, s *run.Session, l *hist.Layout, start hist.Pos, spe
 			} else if len(plan) > 0 {
 				pk = plan[len(plan)-1]
 			}
-			f.Payload = injected(spec.Kind, l, pk, r)
+			if strings.HasPrefix(spec.Kind, "inject-baddecode-") {
+				f.Payload, f.Payload2 = badDecode(spec.Kind, l.Files[pk.File].Cfg)
+			} else {
+				f.Payload = injected(spec.Kind, l, pk, r)
+			}
 		}
 		scr.Faults[at] = f
 	case isTxKind(spec.Kind):
